@@ -12,11 +12,15 @@
  */
 #include <aws/common/byte_buf.h>
 #include <aws/common/common.h>
+#include <aws/common/array_list.h>
 #include <stdio.h>
 #include <stdlib.h>
 #include <string.h>
 
 #define REAL_MAX ((size_t)1 << 16)
+
+/* the driver itself never frees its test inputs: leak reports would turn every run into a non-zero exit */
+const char *__asan_default_options(void) { return "detect_leaks=0"; }
 
 static int s_argc;
 static char **s_argv;
@@ -143,7 +147,7 @@ int main(int argc, char **argv) {
                 if (b.buffer[old.len + i] != want) { FAIL("appended byte %zu is %u, expected %u", i, b.buffer[old.len + i], want); break; }
             }
         }
-    } else if (!strncmp(op, "write", 5)) {
+    } else if (!strncmp(op, "write", 5) && strcmp(op, "write_to_capacity")) {
         struct aws_byte_buf b = mkbuf("buf", 1, NULL), old = b;
         uint8_t *snap = snapshot(&b);
         bool r = false, want = false;
@@ -238,6 +242,191 @@ int main(int argc, char **argv) {
         if ((r == AWS_OP_SUCCESS) != ok) FAIL("%s(%zu) returned %d, expected success=%d", op, n, r, ok);
         if (r == AWS_OP_SUCCESS && (b.capacity < need || b.len != old.len)) FAIL("capacity %zu < %zu or len changed", b.capacity, need);
         if (r == AWS_OP_SUCCESS) for (size_t i = 0; i < old.len; ++i) if (b.buffer[i] != snap[i]) { FAIL("byte %zu lost across reserve", i); break; }
+    } else if (!strcmp(op, "from_array") || !strcmp(op, "from_empty_array") || !strcmp(op, "cursor_from_array")) {
+        size_t n = get2("arg.len", "arg.capacity", 5);
+        n = get2("arg.len_wrapper", "arg.capacity_wrapper", n);
+        uint8_t *p = backing(n, 3);
+        if (!strcmp(op, "cursor_from_array")) {
+            struct aws_byte_cursor c = aws_byte_cursor_from_array(p, n);
+            if (c.len != n || c.ptr != p) FAIL("cursor_from_array: wrong view");
+        } else {
+            struct aws_byte_buf b = !strcmp(op, "from_array") ? aws_byte_buf_from_array(p, n) : aws_byte_buf_from_empty_array(p, n);
+            size_t want_len = !strcmp(op, "from_array") ? n : 0;
+            if (b.len != want_len || b.capacity != n || b.allocator != NULL || b.buffer != (n ? p : NULL)) FAIL("%s(%zu): wrong buffer (len=%zu capacity=%zu)", op, n, b.len, b.capacity);
+        }
+    } else if (!strcmp(op, "read_and_fill_buffer")) {
+        struct aws_byte_cursor c = mkcur("cur", 9), old = c;
+        struct aws_byte_buf d = mkbuf("dest", 1, NULL), dold = d;
+        uint8_t *snap = snapshot(&d);
+        bool ok = d.capacity == 0 || (old.len <= SIZE_MAX / 2 && d.capacity <= SIZE_MAX / 2 && d.capacity <= old.len);
+        if (ok && d.capacity > REAL_MAX) return 3;
+        bool r = aws_byte_cursor_read_and_fill_buffer(&c, &d);
+        if (r != ok) FAIL("read_and_fill_buffer returned %d, expected %d (cursor %zu, capacity %zu)", r, ok, old.len, d.capacity);
+        if (d.len > d.capacity) FAIL("len %zu > capacity %zu afterwards", d.len, d.capacity);
+        if (!r) { check_unchanged(&d, &dold, snap, op); if (c.len != old.len || c.ptr != old.ptr) FAIL("short read changed the cursor"); }
+        else { if (d.len != d.capacity || c.len != old.len - d.capacity) FAIL("lengths wrong after fill"); if (d.capacity && memcmp(d.buffer, old.ptr, d.capacity)) FAIL("filled bytes differ from the source"); }
+    } else if (!strcmp(op, "read_hex_u8")) {
+        static const char *samples[] = {"4f", "A0", "zz", "4", "", "g1", "1g", "ffzz"};
+        size_t want_len = get("cur.len", 2);
+        for (size_t k = 0; k < sizeof samples / sizeof *samples; ++k) {
+            size_t sl = strlen(samples[k]);
+            (void)want_len;
+            uint8_t *p = malloc(sl ? sl : 1); memcpy(p, samples[k], sl);
+            struct aws_byte_cursor c = {.len = sl, .ptr = sl ? p : NULL}, old = c;
+            uint8_t v = 0xEE;
+            bool r = aws_byte_cursor_read_hex_u8(&c, &v);
+            unsigned hv; bool ok = sl >= 2 && sscanf((char[]){samples[k][0], samples[k][1], 0}, "%2x", &hv) == 1 && strspn(samples[k], "0123456789abcdefABCDEF") >= 2;
+            if (r != ok) FAIL("read_hex_u8(\"%s\") returned %d, expected %d", samples[k], r, ok);
+            if (r && (v != hv || c.len != old.len - 2 || c.ptr != old.ptr + 2)) FAIL("read_hex_u8(\"%s\"): value %u / cursor wrong", samples[k], v);
+            if (!r && (v != 0xEE || c.len != old.len || c.ptr != old.ptr)) FAIL("read_hex_u8(\"%s\") failed but changed something", samples[k]);
+            free(p);
+        }
+    } else if (!strcmp(op, "write_to_capacity")) {
+        struct aws_byte_buf b = mkbuf("buf", 1, NULL), old = b;
+        struct aws_byte_cursor c = mkcur("advancing_cursor", 100), cold = c;
+        uint8_t *snap = snapshot(&b);
+        size_t space = old.capacity - old.len, n = space < cold.len ? space : cold.len;
+        if (n > REAL_MAX) return 3;
+        struct aws_byte_cursor w = aws_byte_buf_write_to_capacity(&b, &c);
+        if (w.len != n || w.ptr != cold.ptr) FAIL("write_to_capacity wrote %zu, expected %zu", w.len, n);
+        if (b.len != old.len + n || b.len > b.capacity || b.capacity != old.capacity || b.buffer != old.buffer) FAIL("buffer shape wrong afterwards (len=%zu capacity=%zu)", b.len, b.capacity);
+        if (c.len != cold.len - n || (cold.ptr && c.ptr != cold.ptr + n)) FAIL("cursor not advanced by %zu", n);
+        check_prefix(&b, snap, old.len, op);
+        if (n && memcmp(b.buffer + old.len, cold.ptr, n)) FAIL("written bytes differ from the source");
+    } else if (!strncmp(op, "next_split", 10) || !strncmp(op, "split_on_char", 13)) {
+        size_t n = get("input_str.len", 9);
+        if (n > REAL_MAX) return 3;
+        char sp = (char)get2("arg.split_on", "arg.split_on_wrapper", ';');
+        uint8_t *p = backing(n, 0);
+        for (size_t i = 0; i < n; ++i) p[i] = (i % 3 == 2 || i + 1 == n) ? (uint8_t)sp : (uint8_t)(sp + 1 + i % 5);
+        struct aws_byte_cursor in = {.len = n, .ptr = p}, sub = {0};
+        size_t pos = 0, pieces = 0;
+        while (aws_byte_cursor_next_split(&in, sp, &sub)) {
+            ++pieces;
+            if (n == 0) { if (sub.len != 0) FAIL("piece of an empty input is not empty"); if (pieces > 1) { FAIL("more than one piece of an empty input"); break; } continue; }
+            if (sub.ptr != p + pos) { FAIL("piece %zu starts at %td, expected %zu", pieces, sub.ptr - p, pos); break; }
+            if (sub.len > n - pos) { FAIL("piece %zu runs past the input", pieces); break; }
+            if (sub.len && memchr(sub.ptr, sp, sub.len)) FAIL("piece %zu contains the split character", pieces);
+            if (pos + sub.len < n && p[pos + sub.len] != (uint8_t)sp) FAIL("piece %zu is not followed by the split character", pieces);
+            pos += sub.len + 1;
+            if (pieces > n + 2) { FAIL("too many pieces"); break; }
+        }
+        if (sub.ptr != NULL || sub.len != 0) FAIL("substr not zeroed after the last piece");
+        if (n && pos != n + 1) FAIL("pieces cover %zu bytes of %zu", pos, n + 1);
+        if (!strncmp(op, "split_on_char", 13)) {
+            struct aws_array_list l; struct aws_byte_cursor store[4];
+            aws_array_list_init_static(&l, store, 4, sizeof(struct aws_byte_cursor));
+            int r = aws_byte_cursor_split_on_char_n(&in, sp, get2("arg.n", "arg.n_wrapper", 0), &l);
+            if (aws_array_list_length(&l) > 4) FAIL("static list over-filled");
+            if (r == AWS_OP_SUCCESS && aws_array_list_length(&l) == 0) FAIL("successful split produced no piece");
+        }
+    } else if (strstr(op, "trim_pred") || !strcmp(op, "satisfies_pred")) {
+        size_t n = get("source.len", 7);
+        if (n > REAL_MAX) return 3;
+        uint8_t *p = backing(n, 0);
+        for (size_t i = 0; i < n; ++i) p[i] = (i < n / 3 || i >= n - n / 4) ? ' ' : (uint8_t)('a' + i % 7);
+        struct aws_byte_cursor src = {.len = n, .ptr = p};
+        struct aws_byte_cursor l = aws_byte_cursor_left_trim_pred(&src, aws_isspace), r = aws_byte_cursor_right_trim_pred(&src, aws_isspace), t = aws_byte_cursor_trim_pred(&src, aws_isspace);
+        if (n && (l.ptr + l.len != p + n || l.ptr < p)) FAIL("left_trim result is not a suffix of the source");
+        if (r.ptr != p || r.len > n) FAIL("right_trim result is not a prefix of the source");
+        if (n && (t.ptr < p || t.ptr + t.len > p + n)) FAIL("trim result outside the source");
+        if (l.len && aws_isspace(l.ptr[0])) FAIL("left_trim left a leading space");
+        if (r.len && aws_isspace(r.ptr[r.len - 1])) FAIL("right_trim left a trailing space");
+        if (t.len && (aws_isspace(t.ptr[0]) || aws_isspace(t.ptr[t.len - 1]))) FAIL("trim left a space at an end");
+        for (size_t i = 0; n && i < (size_t)(l.ptr - p); ++i) if (!aws_isspace(p[i])) { FAIL("left_trim removed a non-space"); break; }
+        for (size_t i = r.len; i < n; ++i) if (!aws_isspace(p[i])) { FAIL("right_trim removed a non-space"); break; }
+        bool all = true; for (size_t i = 0; i < n; ++i) all = all && aws_isspace(p[i]);
+        if (aws_byte_cursor_satisfies_pred(&src, aws_isspace) != all) FAIL("satisfies_pred disagrees with a direct scan");
+    } else if (strstr(op, "eq") || strstr(op, "starts_with") || !strncmp(op, "compare", 7)) {
+        /* equality / comparison family: two arrays of the claimed lengths, equal up to position g_mm (if inside) */
+        size_t la = has("arg.len_a") ? get("arg.len_a", 4) : has("a.len") ? get("a.len", 4) : has("lhs.len") ? get("lhs.len", 4) : has("input.len") ? get("input.len", 4) : get("arg.array_len", 4);
+        size_t lb = has("arg.len_b") ? get("arg.len_b", la) : has("b.len") ? get("b.len", la) : has("rhs.len") ? get("rhs.len", la) : has("prefix.len") ? get("prefix.len", la) : get("g_slen", la);
+        size_t mm = get("g_mm", SIZE_MAX);
+        if (la > REAL_MAX || lb > REAL_MAX) return 3;
+        uint8_t *a = malloc(la + 1), *b = malloc(lb + 1);
+        for (size_t i = 0; i <= la; ++i) a[i] = (uint8_t)('A' + i % 26);
+        for (size_t i = 0; i <= lb; ++i) b[i] = (uint8_t)((i == mm ? 'a' : 'A') + (i + (i == mm)) % 26);
+        a[la] = 0; b[lb] = 0;
+        struct aws_byte_cursor ca = {.len = la, .ptr = a}, cb = {.len = lb, .ptr = b};
+        bool same = la == lb && !memcmp(a, b, la);
+        bool same_nocase = la == lb; for (size_t i = 0; same_nocase && i < la; ++i) same_nocase = (a[i] | 0x20) == (b[i] | 0x20);
+        if (aws_array_eq(a, la, b, lb) != same || aws_byte_cursor_eq(&ca, &cb) != same) FAIL("array_eq/cursor_eq disagree with memcmp (len %zu/%zu, differ at %zu)", la, lb, mm);
+        if (aws_array_eq_ignore_case(a, la, b, lb) != same_nocase || aws_byte_cursor_eq_ignore_case(&ca, &cb) != same_nocase) FAIL("eq_ignore_case disagrees with a direct scan");
+        if (aws_array_eq_c_str(a, la, (const char *)b) != same || aws_byte_cursor_eq_c_str(&ca, (const char *)b) != same) FAIL("eq_c_str disagrees with memcmp");
+        if (aws_array_eq_c_str_ignore_case(a, la, (const char *)b) != same_nocase) FAIL("eq_c_str_ignore_case disagrees with a direct scan");
+        bool pre = lb <= la && !memcmp(a, b, lb);
+        if (aws_byte_cursor_starts_with(&ca, &cb) != pre) FAIL("starts_with disagrees with memcmp");
+        int c = aws_byte_cursor_compare_lexical(&ca, &cb);
+        size_t m = la < lb ? la : lb; int want = memcmp(a, b, m); if (!want) want = la < lb ? -1 : la > lb ? 1 : 0;
+        if ((c < 0) != (want < 0) || (c > 0) != (want > 0)) FAIL("compare_lexical sign %d, expected %d", c, want);
+        int c2 = aws_byte_cursor_compare_lookup(&ca, &cb, aws_lookup_table_to_lower_get());
+        int want2 = 0; for (size_t i = 0; i < m && !want2; ++i) { int x = a[i] | 0x20, y = b[i] | 0x20; want2 = x < y ? -1 : x > y ? 1 : 0; } if (!want2) want2 = la < lb ? -1 : la > lb ? 1 : 0;
+        if (c2 != want2) FAIL("compare_lookup returned %d, expected %d", c2, want2);
+    } else if (!strncmp(op, "parse_u64", 9) || !strcmp(op, "s_read_unsigned")) {
+        static const char *samples[] = {"0", "00004", "18446744073709551615", "18446744073709551616", "99999999999999999999", "", "-1", "1,000", " 0", "ff", "FFFFFFFFFFFFFFFF", "10000000000000000", "0x0", "000000000000000000000000ff"};
+        for (size_t k = 0; k < sizeof samples / sizeof *samples; ++k) {
+            for (int hex = 0; hex < 2; ++hex) {
+                const char *sv = samples[k]; size_t sl = strlen(sv);
+                __uint128_t ref = 0; bool ok = sl > 0;
+                for (size_t i = 0; i < sl && ok; ++i) {
+                    int d = sv[i] >= '0' && sv[i] <= '9' ? sv[i] - '0' : sv[i] >= 'a' && sv[i] <= 'f' ? sv[i] - 'a' + 10 : sv[i] >= 'A' && sv[i] <= 'F' ? sv[i] - 'A' + 10 : 99;
+                    if (d >= (hex ? 16 : 10)) ok = false; else { ref = ref * (hex ? 16 : 10) + d; if (ref > UINT64_MAX) ok = false; }
+                }
+                uint8_t *p = malloc(sl ? sl : 1); memcpy(p, sv, sl);
+                struct aws_byte_cursor c = {.len = sl, .ptr = sl ? p : NULL};
+                uint64_t v = 77;
+                int r = hex ? aws_byte_cursor_utf8_parse_u64_hex(c, &v) : aws_byte_cursor_utf8_parse_u64(c, &v);
+                if ((r == AWS_OP_SUCCESS) != ok) FAIL("parse(\"%s\", base %d) returned %d, expected success=%d", sv, hex ? 16 : 10, r, ok);
+                if (r == AWS_OP_SUCCESS && v != (uint64_t)ref) FAIL("parse(\"%s\") value wrong", sv);
+                if (r != AWS_OP_SUCCESS && v != 0) FAIL("parse(\"%s\") failed but left %llu in *dst", sv, (unsigned long long)v);
+                free(p);
+            }
+        }
+    } else if (!strcmp(op, "find_exact")) {
+        size_t n = get("input_str.len", 12), fl = get("to_find.len", 3);
+        if (n > REAL_MAX || fl > REAL_MAX) return 3;
+        uint8_t *p = malloc(n + 1), *f = malloc(fl + 1);
+        for (size_t i = 0; i < n; ++i) p[i] = (uint8_t)('a' + i % 2);
+        for (size_t i = 0; i < fl; ++i) f[i] = (uint8_t)(i + 1 == fl ? 'c' : 'a' + i % 2);
+        if (n >= fl && fl) memcpy(p + (n - fl), f, fl); /* the only occurrence: at the very end */
+        struct aws_byte_cursor in = {.len = n, .ptr = p}, tf = {.len = fl, .ptr = f}, out = {.len = 99, .ptr = p}, out0 = out;
+        int r = aws_byte_cursor_find_exact(&in, &tf, &out);
+        bool ok = fl >= 1 && fl <= n;
+        if ((r == AWS_OP_SUCCESS) != ok) FAIL("find_exact returned %d, expected success=%d", r, ok);
+        if (r == AWS_OP_SUCCESS && (out.ptr != p + (n - fl) || out.len != fl)) FAIL("find_exact reports offset %td len %zu, expected %zu/%zu", out.ptr - p, out.len, n - fl, fl);
+        if (r != AWS_OP_SUCCESS && (out.ptr != out0.ptr || out.len != out0.len)) FAIL("find_exact failed but wrote *first_find");
+    } else if (!strcmp(op, "cat") || !strcmp(op, "init_cache")) {
+        struct aws_byte_buf s1 = mkbuf("s1", 10, NULL), s2 = mkbuf("s2", 60, NULL), s3 = mkbuf("s3", 110, NULL);
+        if (!strcmp(op, "cat")) {
+            struct aws_byte_buf d = mkbuf("dest", 1, NULL), old = d;
+            uint8_t *snap = snapshot(&d);
+            int r = aws_byte_buf_cat(&d, 3, &s1, &s2, &s3);
+            size_t total = 0, room = old.capacity - old.len; bool all = true;
+            if (s1.len <= room - total) total += s1.len; else all = false;
+            if (all && s2.len <= room - total) total += s2.len; else all = false;
+            if (all && s3.len <= room - total) total += s3.len; else all = false;
+            if ((r == AWS_OP_SUCCESS) != all) FAIL("cat returned %d, expected success=%d", r, all);
+            if (d.len != old.len + total || d.len > d.capacity || d.capacity != old.capacity || d.buffer != old.buffer) FAIL("cat: buffer shape wrong (len %zu, expected %zu)", d.len, old.len + total);
+            check_prefix(&d, snap, old.len, op);
+        } else {
+            struct aws_byte_buf d;
+            struct aws_byte_cursor c1 = aws_byte_cursor_from_buf(&s1), c2 = aws_byte_cursor_from_buf(&s2), o1 = c1, o2 = c2;
+            if (s1.len + s2.len > REAL_MAX) return 3;
+            int r = aws_byte_buf_init_cache_and_update_cursors(&d, alloc, &c1, &c2, NULL);
+            if (r != AWS_OP_SUCCESS) FAIL("init_cache failed");
+            else {
+                if (d.len != o1.len + o2.len || d.capacity != d.len) FAIL("init_cache: not an exact-fit buffer");
+                if (d.len && (c1.ptr != d.buffer || c2.ptr != d.buffer + o1.len)) FAIL("init_cache: cursors not re-pointed into the cache");
+                if (o1.len && memcmp(c1.ptr, o1.ptr, o1.len)) FAIL("init_cache: first copy differs");
+                if (o2.len && memcmp(c2.ptr, o2.ptr, o2.len)) FAIL("init_cache: second copy differs");
+            }
+        }
+    } else if (!strcmp(op, "append_null_terminator")) {
+        struct aws_byte_buf b = mkbuf("buf", 1, alloc), old = b;
+        uint8_t *snap = snapshot(&b);
+        int r = aws_byte_buf_append_null_terminator(&b);
+        if (r != AWS_OP_SUCCESS) FAIL("append_null_terminator failed");
+        else { if (b.len != old.len + 1 || b.len > b.capacity || b.buffer[old.len] != 0) FAIL("terminator missing or length wrong"); for (size_t i = 0; i < old.len; ++i) if (b.buffer[i] != snap[i]) { FAIL("existing byte %zu lost", i); break; } }
     } else {
         printf("no native replay for op %s\n", op);
         return 3;
